@@ -37,7 +37,7 @@ def _norm_cli(lines, case):
     """thorough tier, subprocess mode: a failing sub-command only yields an exit status"""
     out = []
     for op, l in zip(case, lines):
-        w = op.split()
+        w = setops.canon(op).split()
         is_cli = w and (w[0].endswith(".cli") or (w[0] == "d" and w[1] in ("cli", "ncli")))
         out.append("err" if (is_cli and l.startswith("err ")) else l)
     return out
@@ -72,6 +72,12 @@ def extra(chk, pkg):
             chk.cov["evaluations"] += 1
             chk.cov["traces_validated_against_impl"] += 1
             ncalls += sum(1 for l in case if ".cli" in l.split()[0] or l.startswith(("d cli", "d ncli")))
+            for l in case:
+                w0 = l.split()
+                tok = w0[1] if w0[0] == "d" else w0[0]
+                if "+" in tok:
+                    routes = chk.cov.setdefault("cli_route_variants", {})
+                    routes[tok.split("+")[1]] = routes.get(tok.split("+")[1], 0) + 1
             a, b = _norm_cli(impl, case), _norm_cli(model, case)
             k = streamlib.first_diff(setops, a, b)
             ob = setops.oracle(case, impl)
